@@ -1,0 +1,75 @@
+// Copyright The Prometheus Authors
+// Licensed under the Apache License, Version 2.0 (the "License");
+// you may not use this file except in compliance with the License.
+// You may obtain a copy of the License at
+//
+// http://www.apache.org/licenses/LICENSE-2.0
+//
+// Unless required by applicable law or agreed to in writing, software
+// distributed under the License is distributed on an "AS IS" BASIS,
+// WITHOUT WARRANTIES OR CONDITIONS OF ANY KIND, either express or implied.
+// See the License for the specific language governing permissions and
+// limitations under the License.
+
+//go:build verif
+
+package app
+
+import (
+	"net/http"
+	"sync"
+
+	"github.com/prometheus/alertmanager/cluster"
+	"github.com/prometheus/alertmanager/dispatch"
+	"github.com/prometheus/alertmanager/inhibit"
+	"github.com/prometheus/alertmanager/nflog"
+	"github.com/prometheus/alertmanager/provider/mem"
+	"github.com/prometheus/alertmanager/silence"
+)
+
+// VerifInternals hands the long-lived singletons of an App to a simulator.
+type VerifInternals struct {
+	Silences   *silence.Silences
+	Silencer   *silence.Silencer
+	Nflog      *nflog.Log
+	Alerts     *mem.Alerts
+	Peer       *cluster.Peer
+	Dispatcher func() *dispatch.Dispatcher
+	Inhibitor  func() *inhibit.Inhibitor
+}
+
+var (
+	verifMtx       sync.Mutex
+	verifInternals = map[*App]VerifInternals{}
+)
+
+func verifExpose(a *App, s *silence.Silences, sr *silence.Silencer, n *nflog.Log, al *mem.Alerts, r *reloader, p *cluster.Peer) {
+	verifMtx.Lock()
+	defer verifMtx.Unlock()
+	verifInternals[a] = VerifInternals{
+		Silences:   s,
+		Silencer:   sr,
+		Nflog:      n,
+		Alerts:     al,
+		Peer:       p,
+		Dispatcher: func() *dispatch.Dispatcher { return r.dispatcher.Load() },
+		Inhibitor:  func() *inhibit.Inhibitor { return r.inhibitor.Load() },
+	}
+}
+
+// VerifHandler returns the HTTP handler the server would serve.
+func (a *App) VerifHandler() http.Handler { return a.server.Handler }
+
+// VerifInternals returns the singletons registered by setup.
+func (a *App) VerifInternals() VerifInternals {
+	verifMtx.Lock()
+	defer verifMtx.Unlock()
+	return verifInternals[a]
+}
+
+// VerifForget drops the registration of a (after Stop).
+func (a *App) VerifForget() {
+	verifMtx.Lock()
+	defer verifMtx.Unlock()
+	delete(verifInternals, a)
+}
